@@ -170,6 +170,25 @@ func lemmaDSRoundTrip(ds DataShape) {
 //@ props C28
 //@ requires #nameFits: len(ds.Name) <= 255
 
+// dsvFits(m, a, n, e): n serialized data shapes starting at address a of byte memory m all lie before address e
+// (forward recursion: exactly the decoder's walk).
+//@ ghost rec func dsvFits(m bytes, a int, n int, e int) bool = n <= 0 || (a + 2 + m[a] <= e && dsvFits(m, a + 2 + m[a], n - 1, e))
+
+// dsvEnd(m, a, n): address just after n serialized data shapes starting at address a.
+//@ ghost rec func dsvEnd(m bytes, a int, n int) int = ite(n <= 0, a, dsvEnd(m, a + 2 + m[a], n - 1))
+
+//@ func DSVFromBytes
+//@ props C28 C06
+//@ requires #wf: buf == nil || (len(buf) >= 1 && dsvFits(mem(buf), base(buf)+1, buf[0], base(buf)+len(buf)))
+//@ loop 0 invariant #idx: 0 <= i && i <= dsLen && 1 <= cursor && cursor <= len(buf) && len(ret) == dsLen
+//@ loop 0 invariant #fits: dsvFits(mem(buf), base(buf)+cursor, dsLen - i, base(buf)+len(buf))
+//@ loop 0 invariant #end: dsvEnd(mem(buf), base(buf)+cursor, dsLen - i) == dsvEnd(mem(buf), base(buf)+1, dsLen)
+//@ loop 0 decreases dsLen - i
+//@ ensures #end: buf != nil ==> base(buf) + byteLength == dsvEnd(mem(buf), base(buf)+1, buf[0])
+//@ ensures #count: buf != nil ==> len(dataShape) == buf[0]
+//@ ensures #consumed: buf != nil ==> (1 <= byteLength && byteLength <= len(buf))
+//@ ensures #nil: buf == nil ==> (dataShape == nil && byteLength == 0)
+
 func lemmaCanaryOffset(index int64, rs int32) {
 	verifAssert(IndexToOffset(index, rs) > IndexToOffset(index+1, rs)) // #canary
 }
